@@ -2,3 +2,6 @@ import HoloGen.Math
 import HoloGen.Proj
 import HoloGen.Tables
 import HoloGen.TmGuards
+import HoloGen.PyPrior
+import HoloGen.PyAcc
+import HoloGen.PyTmatrix
